@@ -907,3 +907,152 @@ pub fn parse_frag(s: &str, pc: &mut ParseCtx) -> Result<Frag, String> {
         x => return Err(format!("unknown fragment {}", x)),
     })
 }
+
+// --------------------------------------------------------------------------
+// Structural mutations (for pairs that differ "only in one thing").
+
+impl Frag {
+    fn children_mut(&mut self) -> Vec<&mut Frag> {
+        match self {
+            Frag::Alt(x)
+            | Frag::Swap(x)
+            | Frag::Check(x)
+            | Frag::DupIf(x)
+            | Frag::Verify(x)
+            | Frag::NonZero(x)
+            | Frag::ZeroNotEqual(x) => vec![x],
+            Frag::AndV(a, b)
+            | Frag::AndB(a, b)
+            | Frag::OrB(a, b)
+            | Frag::OrC(a, b)
+            | Frag::OrD(a, b)
+            | Frag::OrI(a, b) => vec![a, b],
+            Frag::AndOr(a, b, c) => vec![a, b, c],
+            Frag::Thresh(_, xs) => xs.iter_mut().collect(),
+            _ => vec![],
+        }
+    }
+
+    /// Apply `f` to the `idx`-th node in pre-order.
+    pub fn with_node_mut(&mut self, idx: &mut usize, f: &mut dyn FnMut(&mut Frag)) -> bool {
+        if *idx == 0 {
+            f(self);
+            return true;
+        }
+        *idx -= 1;
+        for c in self.children_mut() {
+            if c.with_node_mut(idx, f) {
+                return true;
+            }
+        }
+        false
+    }
+}
+
+/// One small structural edit of a random node. Returns a description, or None if
+/// nothing applicable was found.
+pub fn mutate_frag(rng: &mut Rng, f: &mut Frag, fresh_key: KeyRef) -> Option<&'static str> {
+    let n = f.n_nodes();
+    for _ in 0..12 {
+        let mut idx = rng.below(n);
+        let mut what: Option<&'static str> = None;
+        let choice = rng.below(8);
+        let r1 = rng.next_u64();
+        f.with_node_mut(&mut idx, &mut |node| {
+            what = match node {
+                Frag::Thresh(k, xs) => match choice {
+                    0 if *k < xs.len() => {
+                        *k += 1;
+                        Some("thresh k+1")
+                    }
+                    1 if *k > 1 => {
+                        *k -= 1;
+                        Some("thresh k-1")
+                    }
+                    2 => {
+                        xs.push(Frag::Alt(Box::new(Frag::Check(Box::new(Frag::PkK(fresh_key))))));
+                        Some("thresh +child")
+                    }
+                    3 if xs.len() > 1 && *k < xs.len() => {
+                        xs.pop();
+                        Some("thresh -child")
+                    }
+                    _ => None,
+                },
+                Frag::Multi(k, ks) | Frag::SortedMulti(k, ks) | Frag::MultiA(k, ks) | Frag::SortedMultiA(k, ks) => {
+                    match choice {
+                        0 if *k < ks.len() => {
+                            *k += 1;
+                            Some("multi k+1")
+                        }
+                        1 if *k > 1 => {
+                            *k -= 1;
+                            Some("multi k-1")
+                        }
+                        2 => {
+                            ks.push(fresh_key);
+                            Some("multi +key")
+                        }
+                        3 if ks.len() > 1 && *k < ks.len() => {
+                            ks.pop();
+                            Some("multi -key")
+                        }
+                        4 if ks.len() > 1 => {
+                            let l = ks.len();
+                            ks.swap(0, l - 1);
+                            Some("multi swap keys")
+                        }
+                        _ => None,
+                    }
+                }
+                Frag::PkK(k) | Frag::PkH(k) if choice < 3 => {
+                    *k = fresh_key;
+                    Some("key changed")
+                }
+                Frag::After(t) if choice < 4 => {
+                    *t = if *t > 1 { *t - 1 } else { *t + 1 };
+                    Some("after changed")
+                }
+                Frag::Older(t) if choice < 4 => {
+                    *t = if *t & 0xffff > 1 { *t - 1 } else { *t + 1 };
+                    Some("older changed")
+                }
+                Frag::Sha256(i) | Frag::Hash256(i) | Frag::Ripemd160(i) | Frag::Hash160(i) if choice < 4 => {
+                    *i += 1;
+                    Some("hash changed")
+                }
+                Frag::AndB(a, b) | Frag::OrB(a, b) | Frag::OrI(a, b) | Frag::AndV(a, b) | Frag::OrD(a, b)
+                    if choice == 5 =>
+                {
+                    std::mem::swap(a, b);
+                    Some("children swapped")
+                }
+                Frag::OrI(a, b) if choice == 6 => {
+                    // sugar re-spelling candidates: or_i(X,0) <-> or_i(0,X)
+                    if **b == Frag::False || **a == Frag::False {
+                        std::mem::swap(a, b);
+                        Some("l:/u: swapped")
+                    } else {
+                        None
+                    }
+                }
+                Frag::True if choice == 7 => {
+                    *node = Frag::False;
+                    Some("1 -> 0")
+                }
+                Frag::False if choice == 7 => {
+                    *node = Frag::True;
+                    Some("0 -> 1")
+                }
+                _ => {
+                    let _ = r1;
+                    None
+                }
+            };
+        });
+        if what.is_some() {
+            return what;
+        }
+    }
+    None
+}
